@@ -126,7 +126,33 @@ def make(rng, cls, max_iter, spec=None):
         return dict(alg=a, sol=lambda: [a.x], spec=s)
     if cls == "PrimalDualHybridGradient":
         m = s.setdefault("m", pr.randint(1, 4))
-        fam = s.setdefault("fam", pr.choice(["l1-small-sigma", "l1-small-sigma", "l1", "box", "none"]))
+        fam = s.setdefault("fam", pr.choice(["l1-small-sigma", "l1-small-sigma", "l1", "box", "none", "sat1d", "sat"]))
+        if fam in ("sat1d", "sat"):
+            # saturating prox on BOTH sides (l1 data fit => dual clipped to [-1,1]; box on the primal), possibly
+            # from an infeasible start: x and u can both stay put for one update while x_ext != x, so a residual
+            # that ignores the extrapolated point stops at a non-fixed point
+            if fam == "sat1d":
+                n_, m_ = 1, 1
+                A = np.array([[1.0]])
+                y = np.array([0.0])
+                lo, hi = -1.0, float(s.setdefault("hi", pr.choice([10, 5, 3])))
+                x = np.array([-float(s.setdefault("x0", pr.randint(2, 4)))])
+                u = np.array([float(s.setdefault("u0", pr.randint(3, 6)))])
+                tau, sigma = s.setdefault("tau", 0.5), s.setdefault("sigma", 1.0)
+            else:
+                m_ = m
+                A = np.array([[float(pr.choice([-1, -0.5, 0, 0.5, 1])) for _ in range(n)] for _ in range(m)])
+                if not A.any():
+                    A[0, 0] = 1.0
+                y = np.array([float(pr.randint(-2, 2)) for _ in range(m)])
+                lo, hi = -1.0, 1.0
+                x, u = np.zeros(n), np.zeros(m)
+                L_ = float(np.linalg.norm(A, 2))
+                sigma = s.setdefault("sigma", 0.5 / L_)
+                tau = s.setdefault("tau", 1.0 / (sigma * L_ * L_))
+            a = SA.PrimalDualHybridGradient(lambda sg, w: np.clip(w - sg * y, -1, 1), lambda t, v: np.clip(v, lo, hi),
+                                            lambda v: A @ v, lambda w: A.T @ w, x, u, tau, sigma, max_iter=max_iter, tol=0)
+            return dict(alg=a, sol=lambda: [a.x, a.u], spec=s, A=A, y=y, lam=0.0)
         A = np.array([[float(pr.randint(-2, 2)) for _ in range(n)] for _ in range(m)])
         if not A.any():
             A[0, 0] = 1.0
@@ -343,7 +369,11 @@ def step_stream(ctx, n_inst):
     lines, meta = [], []
     for _ in range(n_inst):
         cls = rng.choice(["PrimalDualHybridGradient", "GradientMethod"])
-        inst = make(rng, cls, 6)
+        spec = None
+        if cls == "PrimalDualHybridGradient":   # the step model knows the quadratic-data-fit families only
+            spec = dict(cls=cls, max_iter=6, seed=rng.randint(0, 2 ** 31),
+                        fam=rng.choice(["l1-small-sigma", "l1-small-sigma", "l1", "box", "none"]))
+        inst = make(rng, cls, 6, spec)
         a, s = inst["alg"], inst["spec"]
         for _k in range(4):
             if cls == "PrimalDualHybridGradient":
